@@ -22,10 +22,11 @@ TERMS = ["natural", "target", "callback", "feasibility", "maxfev", "maxiter"]
 
 def _fix_configs(n):
     if n == 1:
-        return {"none": ("wide",), "onesided": ("lo",), "all": ("fixed",)}
+        return {"none": ("wide",), "onesided": ("lo",), "all": ("fixed",), "odd": ("oddw",)}
     if n == 2:
         return {"none": ("wide", "wide"), "some": ("fixed", "wide"), "ulp": ("wide", "fixulp"),
-                "onesided": ("lo", "wide"), "all": ("fixed", "fixed")}
+                "onesided": ("lo", "wide"), "all": ("fixed", "fixed"), "odd": ("oddw", "oddn"),
+                "oddfix": ("oddn", "fixed")}
     return {"none": ("wide",) * 3, "some": ("fixed", "wide", "wide"), "abo": ("fixed", "fixulp", "wide"),
             "onesided": ("lo", "wide", "up"), "all": ("fixed",) * 3}
 
